@@ -118,6 +118,20 @@ SEGLOG_RULE = (" seglog: random operation sequences on the REAL SegmentedLog in 
 # the rollback delta builder and Rollback bookkeeping (hook H11), overflow values (hook H12) against their Lean mirrors
 TRIEPOS_RUN = {"cmd": "triepos", "mode": "triepos", "cases": {"quick": 1500, "thorough": 20000}, "shards": {"quick": 4, "thorough": 16}}
 SHARDS_RUN = {"cmd": "shards", "mode": "shards", "cases": {"quick": 60, "thorough": 3600}, "shards": {"quick": 4, "thorough": 16}}
+# the commit / rollback pipelines of lib.rs + store/mod.rs + store/sync.rs: the real calls with every I/O event failing (hook H1) against the
+# Lean step-sequence mirror (Api/Pipeline.lean, driver mode `pipeline`)
+PIPE_RUN = {"cmd": "pipeline", "mode": "pipeline", "cases": {"quick": 20, "thorough": 480}, "shards": {"quick": 4, "thorough": 16}}
+# corpus: the history in which `rollback(1)` on a poisoned handle panics in a merkle worker (finding F20, open)
+PIPE_CORPUS = [{"cmd": "pipeline", "mode": "pipeline", "args": ["--only-case", "5"], "cases": {"quick": 6, "thorough": 6}, "shards": {"quick": 1, "thorough": 1}, "seed": 23, "corpus": True}]
+PIPE_RULE = (" pipeline: per case a generated history (session commits, an overlay commit, a rollback; 8 KiB rollback segments in a third of the cases, fat values in a third, the very first commit of a fresh "
+             "store in a fifth), one refusal scenario (stale base through each of the four commit entry points, child overlay before its parent, try_write with a session alive, the rollback log's lock held, "
+             "rollback beyond the log) followed by rollback(1), then a fault sweep over one call kind (commit / try_commit / Overlay::commit / Overlay::try_commit / rollback): the call runs once fault-free with "
+             "the hook observing — its ordered event labels <file>:<Kind>:<site> go to the model (`pwork`: must be an order the pipeline can issue; the model takes its I/O work from them) — then for the first "
+             "occurrence of every label and random other events k the directory is restored to the snapshot before the call, the handles are rebuilt and the call repeated with event k failing once / event k and "
+             "all later ones failing (EIO); compared line by line with the model: result, reason (poisoned / stale / marker / busy / lock / i-o), is_poisoned, in-memory root, sync_seqn, length of the in-memory "
+             "rollback log, values served, verdict of the next commit and of rollback(1) on the poisoned handle, and after drop + reopen root, seqn, log length, every value, a follow-up commit and rollback. "
+             "Oracles (BTreeMap stack, reference trie): an injected failure is reported and poisons, Ok only without injection, reopen shows exactly pre or post, a refused call changes nothing. "
+             "distinct & non-trivial = distinct (call kind, failing label, once / persistent, overlay-with-parent) tuples with an injected failure.")
 DELTA_RUNS = [{"cmd": "delta", "mode": "delta", "cases": {"quick": 120, "thorough": 3000}, "shards": {"quick": 4, "thorough": 16}},
               {"cmd": "delta-log", "mode": "delta", "cases": {"quick": 1000, "thorough": 20000}, "shards": {"quick": 4, "thorough": 16}}]
 LEAFUPD_RUN = {"cmd": "leafupd", "mode": "leafupd", "cases": {"quick": 400, "thorough": 12000}, "shards": {"quick": 3, "thorough": 16}}
@@ -271,8 +285,8 @@ PROPS = {
     "C12": {
         "lines": ['commit', 'trycommit', 'ocommit', 'otrycommit', 'root', 'seqn', 'rollback', 'dread'],
         "tags": ['C12', 'C09', 'C01', 'C02'],
-        "runs": DB_SCN(["stale-nonblocking-then-rollback", "rejected-overlay-marks-committed"]) + [DB("reject", 200, 2000, nops=16), DB("general", 60, 600, nops=16)] + DELTA_RUNS,
-        "rule": DB_RULE + " C12 focus: pairs of changesets on one base committed in both orders and flavours (blocking / non-blocking, session / overlay), rollback in between, non-blocking commits while a session is alive; after every rejected or deferred attempt root, seqn, values and the result of later rollbacks are compared.",
+        "runs": DB_SCN(["stale-nonblocking-then-rollback", "rejected-overlay-marks-committed"]) + [DB("reject", 200, 2000, nops=16), DB("general", 60, 600, nops=16)] + DELTA_RUNS + [dict(PIPE_RUN)],
+        "rule": DB_RULE + PIPE_RULE + " C12 focus: pairs of changesets on one base committed in both orders and flavours (blocking / non-blocking, session / overlay), rollback in between, non-blocking commits while a session is alive; after every rejected or deferred attempt root, seqn, values and the result of later rollbacks are compared.",
         "trusted_base": API_TB, "assumptions": API_ASSUME,
     },
     # ---------------- crash / power-loss / fault enumeration (harness/src/crash.rs + cfg(nomt_verif) I/O hook) ----------------
@@ -293,8 +307,8 @@ PROPS = {
         "exclude_tags": ["C04", "C17"],
         "runs": [dict(CRASH("fault", "kv", 3, 3, steps=3, shards_q=1, nops=10), seed=5), dict(CRASH("fault", "general", 2, 2, steps=2, shards_q=1), seed=2),
                  CRASH("fault", "general", 6, 60, steps=2, shards_q=6), CRASH("fault", "rollback", 3, 30, steps=2, shards_q=3),
-                 CRASH("fault", "kv", 4, 40, steps=3, shards_q=4, big=True, nops=10), CHURN],
-        "rule": CRASH_RULE + " C14: every event index of the chosen operations completes with EIO, once and persistently (writes fail at completion, fsync / resize / unlink at the call); the child reports the result of the call and is_poisoned, then the directory is reopened. Two fixed-seed corpus runs replay the histories that exposed F2 and F8.",
+                 CRASH("fault", "kv", 4, 40, steps=3, shards_q=4, big=True, nops=10), CHURN] + PIPE_CORPUS + [dict(PIPE_RUN)],
+        "rule": CRASH_RULE + PIPE_RULE + " C14: every event index of the chosen operations completes with EIO, once and persistently (writes fail at completion, fsync / resize / unlink at the call); the child reports the result of the call and is_poisoned, then the directory is reopened. Two fixed-seed corpus runs replay the histories that exposed F2 and F8.",
         "trusted_base": DISK_TB, "assumptions": DISK_ASSUME + ["bucket exhaustion is exercised by the API histories with small tables (not yet at every allocation index)"],
     },
     "C10": {
